@@ -387,3 +387,24 @@ pub fn wplan_is_bounded_hold(sc: &ConnScenario) -> bool {
     let hold: u64 = sc.wplan.iter().map(|w| match w { WRule::Pend { ns } => *ns, WRule::PendEvent { ns, .. } => secs(10) + *ns, _ => 0 }).sum();
     sc.wplan.iter().all(|w| matches!(w, WRule::Accept { .. } | WRule::Pend { .. } | WRule::PendEvent { .. } | WRule::Spurious)) && hold <= secs(14)
 }
+
+/// An earlier connection of the same process that ended abruptly while the server still had output
+/// queued: the transport takes a few bytes of the n-th write and then breaks, or the client resets.
+/// (Whatever the code under simulation recycles between connections - a pooled buffer, a cached
+/// frame - is left in the state such an end leaves it in.)
+pub fn abrupt_prelude(rng: &mut Rng, sc: &ConnScenario) -> ConnScenario {
+    use crate::pipe::WRule;
+    let mut p = sc.clone();
+    p.prelude.clear();
+    p.seed ^= 0x0abb_0abb;
+    p.client.rng ^= 0xab;
+    p.client.cuts.clear();
+    p.wplan.clear();
+    for _ in 0..rng.below(5) {
+        p.wplan.push(WRule::Accept { max: 1_000_000 });
+    }
+    p.wplan.push(WRule::Accept { max: rng.range(1, 6) as usize });
+    p.wplan.push(WRule::Broken);
+    p.cap_ns = p.cap_ns.min(secs(120)).max(secs(60));
+    p
+}
